@@ -183,6 +183,13 @@ def sweep(ck, pid, names, mode, powerloss=False, limit_per_scenario=None):
             probs = list(res['probs'])
             if mode == 'fault':
                 raf = res.get('raw_after_fault') or {}
+                if res.get('result') == 'ok' and base.get('final') is not None and raf.get('stored') is not None:
+                    # "the operation either completes correctly or raises": it returned normally, so its effect must be there
+                    missing = [k for k, v in base['final'].items() if raf['stored'].get(k) != v]
+                    if missing:
+                        probs.append(f'the operation returned normally although a call failed, but {len(missing)} object(s) it should have stored/kept '
+                                     f'are not in place afterwards (e.g. {missing[0][:8]})')
+                    dups = raf.get('dups')
                 if 'repack' not in name:
                     if res.get('rerun') != 'ok':
                         probs.append(f'rerun through a new handle after the fault cleared did not complete: {res.get("rerun")}')
